@@ -356,6 +356,10 @@ bool Directory::copy(const String& from, const String& to)
 	if(tofile.isDirectory())
 		topath = to + '/' + File(from).name();
 
+	struct stat sfrom, sto; // same file (same path, own directory, hard or symbolic link): opening it for writing would empty the source
+	if(stat(from, &sfrom) == 0 && stat(topath, &sto) == 0 && sfrom.st_dev == sto.st_dev && sfrom.st_ino == sto.st_ino)
+		return false;
+
 	File dst(topath, File::WRITE);
 	if(!dst)
 		return false;
